@@ -20,6 +20,9 @@ def _directive(name, arg=None):
 
 RESP_DIRS = st.one_of(
     _directive("no-store"), _directive("private"), _directive("private", st.sampled_from(['"set-cookie"', '"x-a, x-b"'])),
+    # argument forms a sender may get wrong (token instead of quoted-string, empty, unterminated quote): the directive was sent
+    # all the same, and RFC 9111 5.2 asks recipients to accept both argument syntaxes
+    _directive("private", st.sampled_from(['Set-Cookie', 'set-cookie', '', '"set-cookie', 'x-a'])),
     _directive("public"), _directive("must-revalidate"), _directive("proxy-revalidate"), _directive("no-cache"),
     _directive("s-maxage", st.sampled_from(["3600", "100000"])), _directive("max-age", st.sampled_from(["3600", "86400", "31536000"])),
     _directive("no-transform"), st.just("x-ext=1"), st.just("immutable"))
